@@ -170,8 +170,9 @@ func (e *Engine) discharge(o *Obligation, cfg *SolverCfg) {
 	if res.status == "sat" {
 		// obtain a model
 		fm := base + ".model.smt2"
-		os.WriteFile(fm, []byte(e.query(o, true, res.name == "cvc5")), 0o644)
-		m := runSolver(context.Background(), res.name, fm, cfg.RaceMS)
+		os.WriteFile(fm, []byte(e.query(o, true, strings.HasPrefix(res.name, "cvc5"))), 0o644)
+		base, _, _ := strings.Cut(res.name, "/")
+		m := runSolver(context.Background(), base, fm, cfg.RaceMS)
 		o.Model = m.out
 	} else if res.status != "unsat" {
 		o.Model = res.out
